@@ -719,6 +719,60 @@ def _g16(ctx):
     return n
 
 
+def _g17(ctx):
+    """NXOSCA.compute_divisor interpreted (lxs/pyconst.py) on a grid of requests against the declared divider range: the divider
+    returned meets the request within its margin and lies in the range; a request is refused exactly when no divider of the range
+    meets it (divider 0 -- the undivided oscillator -- included)."""
+    from .. import pyconst
+    from ..pyconst import NS, Native
+    rel = D + "lattice_nx.py"
+    m = ctx.mod(rel)
+    fn = m.method("NXOSCA", "compute_divisor")
+    ctx.analysed["functions"].add(f"{rel}::NXOSCA.compute_divisor")
+    cdef = [c for c in m.tree.body if isinstance(c, ast.ClassDef) and c.name == "NXOSCA"][0]
+    attrs = {}
+    for st in cdef.body:
+        if isinstance(st, ast.Assign) and len(st.targets) == 1 and isinstance(st.targets[0], ast.Name):
+            try:
+                attrs[st.targets[0].id] = ast.literal_eval(st.value)
+            except (ValueError, SyntaxError):
+                pass
+    rng, fosc = attrs.get("clk_hf_div_range"), attrs.get("clk_hf_freq")
+    ctx.need(isinstance(rng, tuple) and len(rng) == 2 and isinstance(fosc, (int, float)), "NXOSCA: clk_hf_div_range / clk_hf_freq are no longer literal class attributes")
+    funcs = {f.name: f for f in m.tree.body if isinstance(f, ast.FunctionDef)}
+    consts = {"compute_config_log": Native(lambda *a, **k: None)}
+    bad = {"refused": None, "wrong": None}
+    n = n_ok = n_ref = 0
+    freqs = [fosc / (d + 1) * k for d in (0, 1, 2, 3, 7, 44, 100, rng[1] - 2, rng[1] - 1, rng[1], rng[1] + 40) for k in (1.0, 0.97, 1.04, 1.2)] + [fosc * 1.5, 1.0e3]
+    for f in freqs:
+        for margin in (0.0, 0.01, 0.05, 0.15):
+            sat = [d for d in range(*rng) if abs(fosc / (d + 1) - f) <= f * margin]
+            me = NS(logger=NS(), **attrs)
+            try:
+                r = pyconst.call(fn, {"self": me, "freq": f, "margin": margin}, consts=consts, funcs=funcs)
+            except pyconst.Unknowable as ex:
+                ctx.need(False, f"NXOSCA.compute_divisor cannot be interpreted: {ex}")
+            n += 1
+            what = f"compute_divisor({f!r} Hz, margin={margin})"
+            if r[0] == "raise":
+                n_ref += 1
+                if sat:
+                    bad["refused"] = bad["refused"] or f"{what} is refused although divider(s) {sat[:3]} of the declared range {rng} meet the request"
+                continue
+            n_ok += 1
+            try:
+                d = int(r[1])
+            except (TypeError, ValueError):
+                d = None
+            if d is None or d not in sat:
+                bad["wrong"] = bad["wrong"] or f"{what} returns {r[1]!r}: " + ("no divider of the declared range meets the request, it must be refused" if not sat else
+                                                                            f"{fosc!r}/({d}+1) is outside the margin or the range {rng}; dividers that qualify: {sat[:3]}")
+    ctx.analysed["paths"] += n
+    ctx.ob("G17", rel, "NXOSCA.compute_divisor", "interpreted requests:present", n_ok >= 40 and n_ref >= 20, f"{n_ok} granted / {n_ref} refused", fn)
+    ctx.ob("G17", rel, "NXOSCA.compute_divisor", "refused only when no divider of the declared range meets the request", bad["refused"] is None, bad["refused"] or "", fn)
+    ctx.ob("G17", rel, "NXOSCA.compute_divisor", "returned divider lies in the declared range and meets the request within its margin", bad["wrong"] is None, bad["wrong"] or "", fn)
+
+
 def _g15(ctx):
     """GateMatePLL.do_finalize interpreted (lxs/pyconst.py, primitives as opaque objects) on model requests: the CC_PLL primitive is
     configured by two decimal strings and two doubler flags only, so those must reproduce the registered input frequency and every
@@ -791,6 +845,9 @@ def run(ctx):
     ctx.rule("G16", "request record layout: create_clkout stores (signal, freq, phase, margin[, ..]) at the positions every reader of "
                     "self.clkouts unpacks (frequency at 1, phase at 2, margin at 3)", min_sites=7)
     _g16(ctx)
+    ctx.rule("G17", "Lattice NX oscillator: compute_divisor returns a divider of the declared range that meets the request within its "
+                    "margin, and refuses exactly when none does (divider 0 included) -- by interpretation against a brute-force search", min_sites=3)
+    _g17(ctx)
     ctx.rule("G14", "declared windows are closed intervals: a computed frequency equal to a declared minimum / maximum passes every window "
                     "test of the search routines (non-strict acceptance, strict rejection)", min_sites=14)
     _g14(ctx)
